@@ -18,6 +18,10 @@ spec/reloader/ReloaderTrace.tla (judge) quotes its sentence:
    properties, liveness under WF.  Hand-broken variants (trigger on first sight, two changes in one scan cancel, restart
    on every / every non-zero exit code, never restart, exclude patterns ignored, crash on a vanished file, >=, <, exit
    code 1, child without WERKZEUG_RUN_MAIN, parent stops with 0, no fairness) must each fail their property.
+   Watchdog.tla: observer thread + reloader loop of WatchdogReloaderLoop over abstract paths (watched pattern? excluded
+   per fnmatch? per watchdog's own matching?); the two behaviours before repo commit 1626832 (ValueError "conflicting
+   patterns" killing the observer thread; exclusion by PurePath.match instead of fnmatch, both directions) are kept as
+   broken variants that must fail, next to opened-events-count, no exit, exit code 1.
 2. spec -> code: the labelled transition system of the model (scans atomic up to events right after the listing) is
    exported; one schedule per transition (shortest path + the transition + the rest of the scan) and seeded random walks
    are executed on the real code in-process (harness/reloader.py: real restart_with_reloader / run_with_reloader, real
@@ -64,6 +68,17 @@ MUTANTS = {
     "nofair": "KeepsScanning",                  # (liveness) the same model without fairness of the watcher
 }
 QUICK_MUTANTS = ["first_sight", "toggle", "restart_any", "exclude_ignored", "lt"]
+# Watchdog.tla (observer thread + reloader loop): cfg MCW_<name> -> the property that must fail.  The first three are the
+# behaviours of WatchdogReloaderLoop before repo commit 1626832 (FX06-1, FX06-2)
+WD_MUTANTS = {
+    "conflict_raises": "ObserverAlive",          # exclude pattern == watched pattern: ValueError on every event
+    "purepath_exclude": "WdOnlyObservedChange",  # excluded per fnmatch, not per watchdog's matching: reload for an excluded file
+    "purepath_missed": "WdChangeLeadsToExit",    # the other direction: a change of a file that does not fnmatch is ignored
+    "opened_counts": "WdOnlyObservedChange",
+    "no_exit": "WdChangeLeadsToExit",
+    "exit_code": "WdExitsWith3",
+}
+QUICK_WD_MUTANTS = ["conflict_raises", "purepath_exclude", "purepath_missed"]
 
 _TMP = None
 
@@ -89,10 +104,10 @@ def _exec(job):
     raise ValueError(kind)
 
 
-def _check_mutant(ctx: Ctx, name: str):
-    want = MUTANTS[name]
+def _check_mutant(ctx: Ctx, name: str, module=MC, prefix="MCM_", table=None):
+    want = (table or MUTANTS)[name]
     try:
-        r = tlc.run_tlc(AREA, MC, "MCM_" + name, workers=2, tmp=ctx.tmp, allow_violation=True, timeout=600)
+        r = tlc.run_tlc(AREA, module, prefix + name, workers=2, tmp=ctx.tmp, allow_violation=True, timeout=600)
         got = r.invariant_violated
     except MachineryError as e:          # temporal violations are reported by TLC in a form run_tlc does not classify
         msg = str(e)
@@ -277,13 +292,16 @@ def model_checks(ctx: Ctx):
     cfgs = ["MCQ"] if q else ["MCQ", "MCQ_coarse", "MCQ_ne", "MCT", "MCT_ne"]
     muts = QUICK_MUTANTS if q else list(MUTANTS)
     w = max(2, min(ctx.workers, 8) // 2)
-    with cf.ThreadPoolExecutor(max_workers=3 if q else 4) as ex:
+    with cf.ThreadPoolExecutor(max_workers=4) as ex:
         futs = [ex.submit(ctx.model_check, AREA, MC, c, workers=w if c.startswith("MCQ") else ctx.workers, timeout=7200) for c in cfgs]
         mf = [ex.submit(_check_mutant, ctx, m) for m in muts]
+        futs.append(ex.submit(ctx.model_check, AREA, "Watchdog", "MCW", workers=2, timeout=600))
+        wf = [ex.submit(_check_mutant, ctx, m, "Watchdog", "MCW_", WD_MUTANTS) for m in (QUICK_WD_MUTANTS if q else list(WD_MUTANTS))]
         exp = ex.submit(ctx.export, AREA, MC, "MCX" if q else "MCXT", count_states=False, timeout=3600)
         for f in futs:
             f.result()
         ctx.notes["broken_model_variants_fail"] = dict(f.result() for f in mf)
+        ctx.notes["broken_watchdog_model_variants_fail"] = dict(f.result() for f in wf)
         rows = exp.result()
     ctx.exhaustive = True
     return rows
